@@ -11,7 +11,7 @@ From TV Require Import Proofs.LexEquivBase Proofs.LexEquivTrivia Proofs.LexEquiv
                        Proofs.PrintBackSort Proofs.PrintBackEnts Proofs.PrintBackDisplay Proofs.PrintBackSecs Proofs.PrintBackHKey Proofs.PrintBackFinal
                        Proofs.PrintBackSecDoc
                        Proofs.PrintBackDVals Proofs.PrintBackDDisplay Proofs.PrintBackDAll Proofs.PrintBackDState Proofs.PrintBackDKey Proofs.PrintBackIValue Proofs.PrintBackDItems
-                       Proofs.PrintBackDDoc Proofs.PrintBackDFinal.
+                       Proofs.PrintBackDDoc Proofs.PrintBackDFinal Proofs.TilingNormScan Proofs.TilingCmt.
 From TV Require Proofs.DefsEquivSim.
 Require Import Lia ZifyBool ZifyN ZifyNat Sorting.Sorted Sorting.Permutation.
 
@@ -38,7 +38,8 @@ Theorem doc_items s d : parse_document s = POk d ->
     /\ t_dotted (doc_root d) = false /\ t_decor (doc_root d) = decor_default /\ t_position (doc_root d) = None
     /\ uk2 (hkey s) (doc_root d)
     /\ Permutation (ALLI (t_items (doc_root d))) (map fst items) /\ Forall (sitem_ok s) items
-    /\ StronglySorted N.lt (map (fun it : sitem => ppos (fst it)) items).
+    /\ StronglySorted N.lt (map (fun it : sitem => ppos (fst it)) items)
+    /\ Forall (sitem_cj s) items.
 Proof.
   intro Hp. pose proof Hp as H. unfold parse_document, parse_all in H.
   destruct ((a <- document ;; eof ;;; ret a) (new_input s)) as [st i|e j|e j|x] eqn:E; try discriminate.
@@ -67,13 +68,13 @@ Proof.
   assert (Et : rest i2 = t) by (destruct St as [Rt _]; rewrite Rend, app_nil_r in Rt; exact Rt).
   rewrite Et in Es.
   assert (HI0 : dinv s (on_ws state_new (pos i1, pos i2)) i2 [] i1 w0).
-  { exists []. unfold on_ws, state_new. cbn [st_root st_path st_current st_trailing st_position st_is_array pop_key rev map concat].
+  { split; [|right; exists []; rewrite (ncr_ws w0 Hw0); apply cj_ws, Hw0]. exists []. unfold on_ws, state_new. cbn [st_root st_path st_current st_trailing st_position st_is_array pop_key rev map concat].
     split; [apply uk2_eq; split; constructor|]. split; [apply uk2_eq; split; constructor|]. split; [reflexivity|]. split; [reflexivity|].
     split; [repeat split; constructor|]. split; [constructor|]. split; [constructor|]. split; [constructor|]. split; [reflexivity|].
-    split; [reflexivity|]. split; [exact Hi1|]. split; [exact Sw|]. right. left.
+    split; [reflexivity|]. split; [exact Hi1|]. split; [exact Sw|]. split; [|constructor]. right. left.
     destruct Sb as [_ ->]. rewrite pos_adv. cbn [new_input pos]. rewrite <- Ebm. lia. }
   destruct (Hok [] i1 w0 HI0) as (out' & j0 & pend & HI' & Eo).
-  destruct (dinv_finalize s stl i3 out' j0 pend st' HI' Ef) as (items & Est' & Hur & Hrd & Hdec & Hpos & Hperm & Hoks & Hsort & _ & Eout & Htr & Hj0 & Spend & _).
+  destruct (dinv_finalize s stl i3 out' j0 pend st' (proj1 HI') Ef) as (items & Est' & Hur & Hrd & Hdec & Hpos & Hperm & Hoks & Hsort & _ & Eout & Htr & Hj0 & Spend & _ & Hcj).
   assert (Etr : st_trailing st' = Some (pos j0, pos i3)) by (rewrite Est'; cbn [DefsEquivSim.finalized st_trailing]; exact Htr).
   rewrite Etr in Hd. subst d. cbn [doc_root doc_trailing] in *.
   exists w0, t, l, o, items. split; [exact Es|]. split; [exact Hw0|]. split; [exact Hlt|].
@@ -85,7 +86,7 @@ Theorem doc_render_dotted s d : parse_document s = POk d ->
   exists w t l o, strip_bom s = w ++ t /\ ws_tok w /\ lines_text t l o
                   /\ (vals_ok s (doc_root d) = true -> laid_out s (doc_root d) = true -> render s d = w ++ o).
 Proof.
-  intro Hp. destruct (doc_items s d Hp) as (w & t & l & o & items & Es & Hw & Hlt & Eo & Hrd & Hdec & Hpos & Hur & Hperm & Hoks & Hsort).
+  intro Hp. destruct (doc_items s d Hp) as (w & t & l & o & items & Es & Hw & Hlt & Eo & Hrd & Hdec & Hpos & Hur & Hperm & Hoks & Hsort & _).
   exists w, t, l, o. split; [exact Es|]. split; [exact Hw|]. split; [exact Hlt|]. intros Hf Hlay. unfold render.
   rewrite (dsections_render s (doc_root d) _ items Hf Hrd Hdec Hpos Hur Hperm Hoks Hsort Hlay). symmetry. exact Eo.
 Qed.
